@@ -9,8 +9,9 @@ META = {
     'technique': 'Coq proof (induction over the prefixes of the mutation-step list of any sink history, with at most one failing '
                  'rename/create/unlink/open step; step order interpreted from the statement lists translated from rotate()/'
                  'compressFile()) + strace trace validation of the step list + real SIGKILL at every mutation system call and '
-                 'injected errno failures on a real RotatingFileSink, directories compared with the extracted model and judged '
-                 'by the extracted oracle',
+                 'injected errno failures on a real RotatingFileSink, each followed by a new sink that rotates (and runs its retention) '
+                 'on what was left, in UTC and in time zones whose calendar date differs from the UTC date; directories compared with '
+                 'the extracted model and judged by the extracted oracle',
     'text': 'Theorems (Properties_C10.v): for every directory, configuration, record list, single fault and crash point k, every '
             'record that was in an intact file or was appended before k is in an intact plain or complete .gz file of the crash '
             'directory, or went with a whole file removed by retention; rename and create targets never exist (next index skips '
@@ -354,11 +355,13 @@ def run_config(chk, crash, model, cfgv, stats, pool):
     tz = cfgv.get('tz')
     d0 = dates_now(tz)
     buf = Findings(chk)
+    reported = set(stats['reported'])
     try:
         run_config_1(buf, crash, model, cfgv, stats, pool, tz, d0[0])
     finally:
         if dates_now(tz) != d0:
             stats['skipped_midnight'] += 1
+            stats['reported'] = reported
         else:
             buf.commit()
 
@@ -690,6 +693,13 @@ def configs(chk):
     if thorough:
         out.append({'L': 8, 'N': 100, 'opts': 4, 'sizesA': [7], 'sizesB': [7] * 6})
         out.append({'L': 30, 'N': 1000, 'opts': 5, 'sizesA': [7, 12], 'sizesB': [12] * 6})
+    # RotationDaily (bit 2) on: within one calendar day it must change nothing (the model has no such flag) - provided the
+    # date of the message, the date of "now" and the date of the file's time stamp are taken in the same calendar
+    out.append({'L': 8, 'N': 3, 'opts': 6, 'sizesA': [7, 7], 'sizesB': [7] * 4})
+    out.append({'L': 20, 'N': 2, 'opts': 3, 'sizesA': [7], 'sizesB': [7] * 5})
+    if thorough:
+        out.append({'L': 8, 'N': 0, 'opts': 2, 'sizesA': [], 'sizesB': [7] * 4})
+        out.append({'L': 8, 'N': 4, 'opts': 7, 'sizesA': [7, 7], 'sizesB': [7] * 5})
     # N <= 0 means "keep everything": nothing may ever be deleted, whatever the sign
     out.append({'L': 8, 'N': -1, 'opts': 0, 'sizesA': [], 'sizesB': [7] * 4})
     out.append({'L': 20, 'N': -5, 'opts': 4, 'sizesA': [], 'sizesB': [7] * 5})
@@ -699,7 +709,7 @@ def configs(chk):
     extra = 40 if thorough else 1
     for _ in range(extra):
         L = rng.choice((8, 15, 20, 30, 64))
-        out.append({'L': L, 'N': rng.choice((0, 2, 2, 3, 4, 1, -1, 9, 50)), 'opts': rng.choice((0, 4, 1, 5, 4, 5)),
+        out.append({'L': L, 'N': rng.choice((0, 2, 2, 3, 4, 1, -1, 9, 50)), 'opts': rng.choice((0, 4, 1, 5, 4, 5, 6, 3)),
                     'sizesA': [rng.choice((7, 8, 12, 20)) for _ in range(rng.randint(0, 4))],
                     'sizesB': [rng.choice((7, 7, 8, 13, 21, L, L + 1)) for _ in range(rng.randint(3, 8 if thorough else 6))]})
     # time zone of the processes: every second configuration runs where the local calendar date is one ahead of the UTC
@@ -722,6 +732,7 @@ def run():
                        'write/close errors on the .gz are outside (F8) and so are power loss and partial writes',
                        'one calendar day per history (configurations under which the local or the UTC date changes are discarded and counted); the day itself is '
                        'arbitrary: part of the configurations run in a time zone whose calendar date is one ahead of / one behind the UTC date',
+                       'RotationDaily, where set, is a no-op (one calendar day): the model ignores that flag',
                        'no other process changes the directory']
     chk.proof(vlib.proof_leg('Properties_C10', ['crash']))
     model = Model(vlib.build_model('crash'))
